@@ -18,7 +18,24 @@ clean()
 demo_cmd = meta["demo_cmd"]
 if "--offline" not in demo_cmd:
     demo_cmd = demo_cmd.replace("cargo test", "cargo test --offline", 1)
-rc, o = sh("git apply --whitespace=nowarn %s/demo.diff" % seed)
+def apply_union(diff):
+    """git apply; if the base moved (hooks/fixes appended lines at the same place, typically the end of a
+    file) fall back to a 3-way apply and keep BOTH sides of every conflict (what merge=union does)."""
+    rc, o = sh("git apply --whitespace=nowarn %s" % diff)
+    if rc == 0:
+        return 0, o
+    rc, o = sh("git apply --3way --whitespace=nowarn %s" % diff)
+    rc2, st = sh("git status --porcelain")
+    conflicted = [l[3:].strip() for l in st.split("\n") if l[:2] in ("UU", "AA")]
+    for f in conflicted:
+        fp = os.path.join(wt, f)
+        lines = [l for l in open(fp).read().split("\n") if not (l.startswith("<<<<<<< ") or l == "=======" or l.startswith(">>>>>>> "))]
+        open(fp, "w").write("\n".join(lines))
+    sh("git reset -q")
+    res.setdefault("union_resolved", []).extend(conflicted)
+    rc3, st = sh("git status --porcelain")
+    return (0 if (conflicted or rc == 0) else 1), o
+rc, o = apply_union("%s/demo.diff" % seed)
 res["demo_applies"] = rc == 0
 rc, o = sh(demo_cmd, timeout=3600)
 res["demo_passes_without_patch"] = rc == 0
